@@ -574,6 +574,11 @@ def main(mod):
     mism_new = [i for i in mism_cases
                 if not any(k in open_ids and pred(cases[i]) for k, pred in sigs.items())]
 
+    if os.environ.get('VERIF_DUMP_MISM') and mism_cases:
+        # debugging aid: the model-vs-implementation disagreements of this run, whatever the verdict logic reports
+        with open(os.environ['VERIF_DUMP_MISM'], 'w') as fh:
+            json.dump([{'case': cases[i], 'impl_output': res[i][0]} for i in mism_cases[:20]], fh, default=str)
+
     # ---- verdict -----------------------------------------------------------------
     lines = []
     exit_code = 0
